@@ -50,6 +50,10 @@ func runC12(e *Env) {
 			}
 		}
 	})
+	// "more members than the configured maximum … is rejected with the documented error": the rejecting side of the
+	// comparison against MaxObjectKeys builds its error from ErrObjectTooBig (errors.Is finds it: C12.wrap binds it)
+	ruleC12TooBig(e)
+	e.S.Floor("C12.toobig", 1)
 	e.S.Floor("C12.whole", 1)
 	e.S.Floor("C12.zero", 1)
 	e.S.Floor("C12.count", 1)
@@ -75,6 +79,73 @@ func runC12(e *Env) {
 	e.S.Floor("C12.entry", 2)
 	ruleWrap(e, "C12.wrap", "size")
 	e.S.Floor("C12.wrap", 8)
+}
+
+// ruleC12TooBig: see runC12.
+func ruleC12TooBig(e *Env) {
+	const rule = "C12.toobig"
+	sent := e.Var(rule, "size", "ErrObjectTooBig")
+	lim := e.Var(rule, "size", "MaxObjectKeys")
+	if sent == nil || lim == nil {
+		return
+	}
+	for _, fn := range e.PkgFuncs("size") {
+		for _, b := range fn.Blocks {
+			iff, ok := b.Instrs[len(b.Instrs)-1].(*ssa.If)
+			if !ok {
+				continue
+			}
+			cmp, ok := iff.Cond.(*ssa.BinOp)
+			if !ok {
+				continue
+			}
+			switch cmp.Op {
+			case token.GTR, token.LSS, token.GEQ, token.LEQ:
+			default:
+				continue
+			}
+			if flow.GlobalLoad(cmp.X) != lim && flow.GlobalLoad(cmp.Y) != lim {
+				continue
+			}
+			site := flow.FnName(fn)
+			// the side on which the count exceeds the limit
+			limRight := flow.GlobalLoad(cmp.Y) == lim
+			over := (cmp.Op == token.GTR || cmp.Op == token.GEQ) == limRight
+			rej := b.Succs[1]
+			if over {
+				rej = b.Succs[0]
+			}
+			if !flow.LeadsOnlyToErrors(rej) {
+				rej = nil
+			}
+			if rej == nil {
+				e.S.Unk(rule, site, "sentinel", "neither side of the comparison against MaxObjectKeys leads only to error returns", e.posOf(iff))
+				continue
+			}
+			uses := false
+			for _, in := range rej.Instrs {
+				if u, ok := in.(*ssa.UnOp); ok && u.X == ssa.Value(sent) {
+					uses = true
+				}
+				if c, ok := in.(*ssa.Call); ok {
+					if g := e.C.StaticCallee(&c.Call); g != nil && flow.InRepo(g) {
+						for _, gb := range flow.Origin(g).Blocks {
+							for _, gin := range gb.Instrs {
+								if u, ok := gin.(*ssa.UnOp); ok && u.X == ssa.Value(sent) {
+									uses = true
+								}
+							}
+						}
+					}
+				}
+			}
+			if uses {
+				e.S.Ok(rule, site, "sentinel", "too many members ⇒ an error built from ErrObjectTooBig", e.posOf(iff))
+			} else {
+				e.S.Bad(rule, site, "sentinel", "the rejection of too many members is not built from ErrObjectTooBig: errors.Is(err, ErrObjectTooBig) fails", e.posOf(iff), `{"a":1,"b":2,"c":3} with MaxObjectKeys = 2`)
+			}
+		}
+	}
 }
 
 func (e *Env) jsonType(name string) types.Type {
@@ -161,6 +232,14 @@ func ruleC12Gate(e *Env) {
 		return
 	}
 	site := flow.FnName(jv)
+	// the scenarios start at the function DefaultParser hands the input to in JSON mode, so that whatever stands between
+	// it and the dispatcher (a wrapper that masks the rule, trims or pre-checks the text) is evaluated with them
+	top := jv
+	for _, call := range e.C.Calls(dp, flow.InRepo) {
+		if callee := flow.Origin(e.C.StaticCallee(&call.Call)); callee != ut && callee != jv && e.C.Reachable(callee)[jv] {
+			top = callee
+		}
+	}
 	unitBit, _ := tabConstInt(e, "size", "RuleDisableUnit")
 	unitRule := maskedSym("r", unitBit)
 	strBit, _ := tabConstInt(e, "size", "RuleEnableJSONStringForm")
@@ -218,7 +297,7 @@ func ruleC12Gate(e *Env) {
 		// the rule parameter by its type, every other parameter is (a form of) the input
 		mk := func() []pred.Val {
 			var out []pred.Val
-			for _, prm := range jv.Params {
+			for _, prm := range top.Params {
 				if nt, ok := prm.Type().(*types.Named); ok && nt.Obj().Name() == "Rule" {
 					out = append(out, pred.Sym{Name: "r"})
 				} else {
@@ -227,7 +306,7 @@ func ruleC12Gate(e *Env) {
 			}
 			return out
 		}
-		leaves, err := extractTree(e.P.SSA, jv, mk, sums, nil, keyOf, binDomain)
+		leaves, err := extractTree(e.P.SSA, top, mk, sums, nil, keyOf, binDomain)
 		if err != nil {
 			e.S.Unk(rule, site, sc.name, err.Error(), e.Pos(jv))
 			continue
@@ -571,6 +650,79 @@ func ruleC12Arms(e *Env) {
 			e.S.Ok(rule, site, arm.what+" arm", "\""+arm.what+"\" already seen ⇒ "+arm.sentinel+", tested before decoding", e.posOf(call))
 		} else {
 			e.S.Bad(rule, site, arm.what+" arm", "the \""+arm.what+"\" member is decoded without first rejecting a duplicate with "+arm.sentinel, e.posOf(call), `{"`+arm.what+`":…,"`+arm.what+`":…}`)
+		}
+	}
+	// the member loop as a whole branches only on what the documented reading depends on: the member limit, More(), the
+	// errors of the reads, the (normalised) key against the key constants or its kind, "already seen", and the
+	// unknown-keys bit of the rule. Any other test — both members already known, the decoded value against a bound —
+	// makes the verdict depend on member order or refuses what the text rules accept. Nor is a decoded member rewritten.
+	{
+		foreign := ""
+		var at ssa.Instruction
+		limVar := e.V("size", "MaxObjectKeys")
+		okCond := func(cond ssa.Value) bool {
+			for i := 0; i < 3; i++ {
+				if u, ok := cond.(*ssa.UnOp); ok && u.Op == token.NOT {
+					cond = u.X
+					continue
+				}
+				break
+			}
+			switch x := cond.(type) {
+			case *ssa.Const:
+				return true
+			case *ssa.Call:
+				return x.Call.IsInvoke() && x.Call.Method.Name() == "More"
+			case *ssa.Extract:
+				_, isCall := x.Tuple.(*ssa.Call) // a boolean a helper of the module hands back
+				return isCall
+			case *ssa.BinOp:
+				if flow.IsNilConst(x.Y) || flow.IsNilConst(x.X) {
+					return true // an error, or a "seen" pointer, against nil
+				}
+				if limVar != nil && (flow.GlobalLoad(x.X) == limVar || flow.GlobalLoad(x.Y) == limVar) {
+					return true
+				}
+				if _, isK := x.Y.(*ssa.Const); isK {
+					switch l := x.X.(type) {
+					case *ssa.Call, *ssa.Lookup: // normalised key / its kind against a constant
+						return true
+					case *ssa.BinOp: // r & bit against 0
+						return l.Op == token.AND
+					case *ssa.TypeAssert, *ssa.Extract:
+						return true // the raw key against a constant (ruleKeys decides whether that is allowed)
+					}
+				}
+			}
+			return false
+		}
+		for _, b := range rd.Blocks {
+			if iff, ok := b.Instrs[len(b.Instrs)-1].(*ssa.If); ok && !okCond(iff.Cond) && foreign == "" {
+				foreign, at = iff.Cond.String(), iff
+			}
+			for _, in := range b.Instrs {
+				st, ok := in.(*ssa.Store)
+				if !ok {
+					continue
+				}
+				// *value / *unit written after decoding
+				src := st.Addr
+				if ph, ok := src.(*ssa.Phi); ok && len(ph.Edges) > 0 {
+					src = ph.Edges[len(ph.Edges)-1]
+				}
+				if ex, ok := src.(*ssa.Extract); ok {
+					if c, ok := ex.Tuple.(*ssa.Call); ok {
+						if g := e.C.StaticCallee(&c.Call); g != nil && (g.Name() == "decodeValue" || g.Name() == "decodeUnit") && foreign == "" {
+							foreign, at = "a store through the result of "+g.Name(), st
+						}
+					}
+				}
+			}
+		}
+		if foreign != "" {
+			e.S.Bad(rule, site, "loop discipline", "the member loop depends on "+foreign+": beyond the limit, More(), read errors, the key, \"already seen\" and the unknown-keys bit nothing may decide or alter a member", e.posOf(at), `{"value":1,"unit":"B","value":2}`)
+		} else {
+			e.S.Ok(rule, site, "loop discipline", "the member loop branches only on the limit, More(), read errors, the key, \"already seen\" and the unknown-keys bit; decoded members are not rewritten", e.Pos(rd))
 		}
 	}
 	// unknown keys
